@@ -39,10 +39,10 @@ EXHAUSTIVE_NOTE = {"quick": "all op sequences of length 1..4 over 9 ops x thresh
                    "thorough": "all op sequences of length 1..5 over 9 ops x thresholds 1..3 (199290 histories), complete"}
 MIN_NONTRIVIAL_FRACTION = 0.1
 
-PAIRS = {"ok": ("EXECUTE", "PERMIT"), "block": ("EXECUTE", "BLOCK"), "eblock": ("BLOCK", "PERMIT"), "fail": ("FAILURE", "PERMIT"),
+PAIRS = {"raise_t": ("RAISE_TIMEOUT", "PERMIT"), "raise_v": ("EXECUTE", "RAISE_VALUE"), "raise_o": ("RAISE_OS", "PERMIT"), "ok": ("EXECUTE", "PERMIT"), "block": ("EXECUTE", "BLOCK"), "eblock": ("BLOCK", "PERMIT"), "fail": ("FAILURE", "PERMIT"),
          "raise_e": ("RAISE", "PERMIT"), "raise_a": ("EXECUTE", "RAISE"), "odd": ("UNKNOWN", "PERMIT"), "failblock": ("FAILURE", "BLOCK")}
 
-_kind = st.sampled_from(["ok", "block", "fail", "fail", "raise_e", "raise_e", "raise_a", "eblock", "odd", "failblock"])
+_kind = st.sampled_from(["ok", "block", "fail", "fail", "raise_e", "raise_e", "raise_a", "eblock", "odd", "failblock", "raise_t", "raise_v", "raise_o"])
 _op = st.one_of(
     st.tuples(st.just("req"), st.integers(0, 3), _kind),
     st.tuples(st.just("req"), st.integers(4, 40), _kind),
@@ -154,7 +154,7 @@ def _judge(case, out, clock, CS):
             if not r.cached and dcalls[0] != 1:
                 out.fail("disabled:agents-not-consulted", "executor not consulted on a non-cached request with the breaker disabled", d)
                 return
-            if kind in ("raise_e", "raise_a") or r.action == "FAILURE":
+            if kind.startswith("raise_") or r.action == "FAILURE":
                 def_fail_total += 1
                 if def_fail_total >= thr:
                     out.nontrivial = True
@@ -193,7 +193,7 @@ def _judge(case, out, clock, CS):
             if dcalls != (0, 0):
                 out.fail("cache:agents-consulted-on-hit", "agents consulted on a cache hit", d)
                 return
-        elif kind in ("raise_e", "raise_a"):
+        elif kind.startswith("raise_"):
             cls = "failure"
         elif not r.blocked:
             cls = "success"
